@@ -196,8 +196,8 @@ theorem routeMain_ok (cfg : Config) {x : Ctx} (h : Inv x.st) {p : Peer} (hp : p 
         have hx1 := route_tail_ok (x1 := { x with st := _ }) h2 (by rw [hc2]; exact he) x.st.nextTimer tns
             (routedMessage (routedId originId x.st.uuid p.addrTok) path isState value) (routedId originId x.st.uuid p.addrTok)
         split
-        · exact Ok.trans (Ok.of_out_eq h2 (hc2 _ _) rfl) hx1.1
-        · exact Ok.trans (Ok.of_out_eq h2 (hc2 _ _) rfl) hx1.2
+        · exact Ok.trans (y := { x with st := _ }) (Ok.of_out_eq h2 (hc2 _ _) rfl) hx1.1
+        · exact Ok.trans (y := { x with st := _ }) (Ok.of_out_eq h2 (hc2 _ _) rfl) hx1.2
 
 theorem setOrCall_ok (cfg : Config) {x : Ctx} (h : Inv x.st) {p : Peer} (hp : p ∈ x.st.peers) (req : Json)
     (isState : Bool) : Ok x (setOrCall cfg x p req isState).1 := by
